@@ -42,6 +42,7 @@ def run(ctx, rep, tier):
     loops.sort(key=lambda n: n.lineno)
 
     rep.rule("C05.a", "short-circuit merges append the absorbed transition's actions after the absorbing one's, carry the error mark, retarget")
+    rep.rule("C05.m", "neither rewriting loop extends a transition that carries an early-returning action (nothing is performed behind a yield on its transition)")
     rep.rule("C05.l", "neither rewriting loop merges an action that returns early (input advanced before the actions) with one that may leave without consuming")
     rep.rule("C05.h", "the fall-through short-circuit never turns a transition whose own actions may leave early into a consuming one")
     rep.rule("C05.g", "neither rewriting loop bypasses an accepting state (resting in it is observable: DONE from feed/end)")
@@ -89,6 +90,18 @@ def run(ctx, rep, tier):
         rep.check(okl, "C05.l", SC, f"{name}: no merge that puts an early-returning action and a may-redirect action on one transition",
                   "a yield is merged onto a transition with an action that may leave without consuming (append overflow, break under an if): the generated code advances the input before the "
                   "actions, the redirect re-dispatches the same byte and the next one is skipped - with one byte left the pointer passes the end of the caller's buffer")
+        # --- C05.m (F-90): a transition that carries an early-returning action (a yield) is never extended - the generated code returns at the yield, so whatever
+        # is appended behind it on the same transition is never performed, and a yield merged onto the consuming transition behind it is reported a byte late
+        okm = False
+        for st in lp.body:
+            if any(isinstance(n, ast.Call) and isinstance(n.func, ast.Attribute) and n.func.attr in ("attach", "to", "fallthrough", "handles_else") for n in ast.walk(st)):
+                break
+            if isinstance(st, ast.If) and len(st.body) == 1 and isinstance(st.body[0], ast.Continue) and not st.orelse and \
+                    re.fullmatch(r"any\(\(?(\w+)\.may_return_early\(\) for \1 in %s\.actions\)?\)" % re.escape(tv), ast.unparse(st.test)):
+                okm = True
+        rep.check(okm, "C05.m", SC, f"{name}: a transition that carries an early-returning action is not extended",
+                  "the pass appends actions behind a yield (the generated code returns at the yield: they never run; two merged yields lose the second) or merges a yield that happens BEFORE "
+                  "a byte onto the transition that consumes it (reported one byte late): `\"a\"; yield Y; x = 1; wait \"b\";` differs between -O2 and -O3")
         if li == 0:
             # --- C05.h: the absorbing fall-through transition carries no action that may leave early
             lv = False
@@ -122,8 +135,17 @@ def run(ctx, rep, tier):
             rep.check(stmts.index(att[0].node and next(s for s in stmts if s.value is att[0].node)) < stmts.index(next(s for s in stmts if s.value is tos[0].node)), "C05.a", SC,
                       f"{name}: actions merged before retargeting", "order of attach / retarget changed")
         em = [n for n in lp.body if isinstance(n, ast.If) and ast.unparse(n.test) == f"{absorbed}.error_handling"]
-        ok = len(em) == 1 and len(em[0].body) == 1 and ast.unparse(em[0].body[0]) == f"{tv}.handles_else()"
-        rep.check(ok, "C05.a", SC, f"{name}: error mark carried over", "the error-path mark of the absorbed transition is no longer carried over")
+        if li == 0:
+            # the absorbed transition is the one that CONSUMES the byte: its reason for consuming (valid continuation or error path) becomes the merged transition's
+            ok = len(em) == 1 and len(em[0].body) == 1 and ast.unparse(em[0].body[0]) == f"{tv}.handles_else()"
+            rep.check(ok, "C05.a", SC, f"{name}: error mark of the consuming (absorbed) transition carried over", "the error-path mark of the absorbed consuming transition is no longer carried over")
+        else:
+            # F-91: here the absorbing transition consumes and keeps its own reason; the absorbed step is a non-consuming Else whose mark (a yield that ends a block carries
+            # one without being an error) says nothing about the byte consumed before it. (This rule used to demand the hand-over: a frozen belief, wrong.)
+            marks = [n for n in ast.walk(lp) if isinstance(n, ast.Call) and isinstance(n.func, ast.Attribute) and n.func.attr == "handles_else" and ast.unparse(n.func.value) == tv]
+            rep.check(not em and not marks, "C05.a", SC, f"{name}: the consuming transition keeps its own error mark",
+                      "the dummy-state removal hands the error mark of the absorbed non-consuming step to the consuming transition in front of it: a valid continuation becomes an 'error path', the "
+                      "state in front of it counts as finished - `\"i\"; optional { \"e\"; yield Y; }` answers DONE right after `i` at -O3 and the yield is lost")
         if li == 0:
             ft = [c for c in chains if c.fallthrough is not None]
             rep.check(len(ft) == 1 and ft[0].fallthrough == "False", "C05.a", SC, f"{name}: merged transition consumes like the absorbed one", f"fallthrough update is {[c.fallthrough for c in ft]}")
